@@ -44,9 +44,14 @@ def gen_function(i, rng):
         if r < 0.35:
             return []
         return sorted(rng.sample(ALPHA, rng.choice([1, 1, 2, 3])))
-    cfg = {"p": pick(), "q": pick(), "a": pick(), "c": pick(), "ret": pick()}
+    cfg = {"p": pick(), "q": pick(), "a": pick(), "c": pick(), "ret": pick(), "b2": pick() or ["A"], "c2": pick() or ["B"], "p2": pick() or ["C"]}
+
+    def must(tags):
+        s = ann_forms(tags, rng)
+        return s if s.strip(": ") not in ("", "int") else ': "@' + tags[0] + '"'
     src = (f"def t{i}(p{ann_forms(cfg['p'], rng)}, q{ann_forms(cfg['q'], rng)}){ret_form(cfg['ret'], rng)}:\n"
-           f"    a{ann_forms(cfg['a'], rng)} = p + 1\n    b = q + 2\n    a = a + b\n    c{ann_forms(cfg['c'], rng)} = a * 2\n    return c\n")
+           f"    a{ann_forms(cfg['a'], rng)} = p + 1\n    b = q + 2\n    a = a + b\n    c{ann_forms(cfg['c'], rng)} = a * 2\n"
+           f"    b{must(cfg['b2'])} = b + 1\n    c{must(cfg['c2'])} = c + 1\n    p{must(cfg['p2'])} = p + 1\n    return c\n")
     return cfg, src
 
 
@@ -85,7 +90,7 @@ def main():
                 getattr(mod2, f"t{i}")(P0, Q0)
                 fired.append(len(got) - n0)
         cases.append({"id": len(cases), "kind": "fnpos", "T": T, "var": "", "text": f"$f:@{T} > c", "rets": [c["ret"] for c in cfgs],
-                      "fired": fired, "outcome": "ok", "stream": [], "interacted": [], "cfg": {"p": [], "q": [], "a": [], "c": [], "ret": []}})
+                      "fired": fired, "outcome": "ok", "stream": [], "interacted": [], "cfg": {"p": [], "q": [], "a": [], "c": [], "ret": [], "b2": [], "c2": [], "p2": []}})
     interacted = []
     orig_interact = Interactor.interact
 
